@@ -19,7 +19,7 @@ import (
 // ------------------------------------------------------------------ C20
 
 type rcSpec struct {
-	Ops   []string `json:"ops"`   // operations run concurrently, one goroutine each
+	Ops   []string `json:"ops"` // operations run concurrently, one goroutine each
 	Iters int      `json:"iters"`
 	Shape int      `json:"shape"`
 }
@@ -57,10 +57,15 @@ type nullObserver struct {
 	tail int
 }
 
-func (o *nullObserver) WriteString(s string) (int, error) { o.mu.Lock(); o.n++; o.mu.Unlock(); return len(s), nil }
-func (o *nullObserver) SetLines(l []string)               { o.mu.Lock(); o.n += len(l); o.mu.Unlock() }
-func (o *nullObserver) GetTailLength() int                { return o.tail }
-func (o *nullObserver) GetUniqueID() string               { return o.id }
+func (o *nullObserver) WriteString(s string) (int, error) {
+	o.mu.Lock()
+	o.n++
+	o.mu.Unlock()
+	return len(s), nil
+}
+func (o *nullObserver) SetLines(l []string) { o.mu.Lock(); o.n += len(l); o.mu.Unlock() }
+func (o *nullObserver) GetTailLength() int  { return o.tail }
+func (o *nullObserver) GetUniqueID() string { return o.id }
 
 func runRacePair(c fw.Case) fw.Result {
 	var sp rcSpec
@@ -319,7 +324,7 @@ func init() {
 
 	fw.Register(&fw.Property{
 		ID: "C20", Level: "exploration", Race: true,
-		Rule: "race-detector build (-race) of the harness; for every unordered pair of the 16 API operations (and seeded triples) both run in tight loops for a fixed number of iterations against a project whose simulated processes are exiting, restarting, logging, pending on dependencies and being scaled/updated, yield points in perturbation mode; oracles: race reports de-duplicated by the sorted pair of innermost process-compose functions, runtime fatal errors / panics, per-scenario watchdog for calls that never return; distinct = operation set x project shape",
+		Rule:        "race-detector build (-race) of the harness; for every unordered pair of the 16 API operations (and seeded triples) both run in tight loops for a fixed number of iterations against a project whose simulated processes are exiting, restarting, logging, pending on dependencies and being scaled/updated, yield points in perturbation mode; oracles: race reports de-duplicated by the sorted pair of innermost process-compose functions, runtime fatal errors / panics, per-scenario watchdog for calls that never return; distinct = operation set x project shape",
 		Assumptions: []string{"API calls start after Run() created the automatic instances", "race reports are probabilistic: the pair list is what these runs observed"},
 		Gen: func(seed int64, tier string) []fw.Case {
 			var cs []fw.Case
